@@ -921,9 +921,15 @@ Fixpoint frame_next (fuel:nat) (r:rt) (c:context) : res (fres * rt * context) :=
           match br with
           | BrSeekEnd => Ok (FDone, r2, upd_top c3 (fun f => set_pos f (S (length (f_code f)))))
           | BrSeekStart =>
-              let c4 := clear_values (upd_top c3 (fun f => set_pos f 0)) in
+              (* a frame that starts over is a new scope: its name goes too (frame.h, repair C02-scopename) *)
+              let c4 := clear_values (upd_top c3 (fun f => set_scope (set_pos f 0) "")) in
               if top_code_empty c4 then Ok (FRestarted, r2, c4) else frame_next fuel' r2 c4
-          | BrExchange code' => frame_next fuel' r2 (upd_top c3 (fun f => set_pos (set_code f code') 0))
+          | BrExchange code' =>
+              (* while: the body has run, the condition comes back - the next round is a new scope (behavior_while_exit::enact clears
+                 the name together with the variables; modelled here, where the frame is rewritten, so that enact only speaks about
+                 variables) *)
+              let rename := fun f => match b' with BWhile _ WCond _ _ => set_scope f "" | _ => f end in
+              frame_next fuel' r2 (upd_top c3 (fun f => set_pos (set_code (rename f) code') 0))
           | BrOk | BrFail => Ok (res0, r2, c3) end)
       else Ok (res0, r, c1)
     | None => Ok (res0, r, c1) end
